@@ -238,6 +238,8 @@ type Obligation struct {
 	Pos      string // source position (informational only; not part of the name)
 	MustFail bool   // vacuity canary: expected sat
 	Extra    []string
+	Parts    []Term // the goal as a conjunction of smaller goals (tried when the whole goal does not discharge)
+	pc       Term
 }
 
 func (c *Ctx) Fresh(prefix, srt string) Term {
@@ -332,13 +334,24 @@ func (c *Ctx) Define(prefix string, t Term) Term {
 }
 
 func (c *Ctx) AddObligation(fn, kind, name string, pc, goal Term, pos string) *Obligation {
-	o := &Obligation{Name: name, Kind: kind, Func: fn, Goal: Implies(pc, goal), nSorts: len(c.sortDecls), nDecls: len(c.decls), nAxioms: len(c.axioms), nFacts: len(c.facts), ctx: c, Pos: pos}
+	o := &Obligation{pc: pc, Name: name, Kind: kind, Func: fn, Goal: Implies(pc, goal), nSorts: len(c.sortDecls), nDecls: len(c.decls), nAxioms: len(c.axioms), nFacts: len(c.facts), ctx: c, Pos: pos}
 	c.Oblig = append(c.Oblig, o)
 	return o
 }
 
+// SetParts records a decomposition of the goal.
+func (o *Obligation) SetParts(parts []Term) {
+	if len(parts) > 1 {
+		for _, p := range parts {
+			o.Parts = append(o.Parts, Implies(o.pc, p))
+		}
+	}
+}
+
 // SMT renders the obligation as an SMT-LIB 2 script (goal negated).
-func (o *Obligation) SMT(produceModels bool) string {
+func (o *Obligation) SMT(produceModels bool) string { return o.smtFor(o.Goal, produceModels) }
+
+func (o *Obligation) smtFor(goal Term, produceModels bool) string {
 	c := o.ctx
 	var b strings.Builder
 	if produceModels {
@@ -368,7 +381,7 @@ func (o *Obligation) SMT(produceModels bool) string {
 		b.WriteString(f)
 		b.WriteString("\n")
 	}
-	b.WriteString("(assert (not " + o.Goal.S + "))\n")
+	b.WriteString("(assert (not " + goal.S + "))\n")
 	b.WriteString("(check-sat)\n")
 	if produceModels {
 		b.WriteString("(get-model)\n")
